@@ -69,7 +69,7 @@ def enter_set(prefix, tags, n=3, **kw):
 
 
 def routing_set(tags, lens=range(0, 7), **kw):
-    return [H("cli_steps::process_input_routing_n%d" % n, tags=tags, bounds="every well-formed token buffer of exactly %d bytes handed to process_input (all of: dispatch count, handler's view of name and items, help routing, output flushed)" % n, timeout=2400, mem=8, **kw) for n in lens]
+    return [H("cli_steps::process_input_routing_n%d" % n, tags=tags, bounds="every well-formed token buffer of exactly %d bytes over {NUL, -, h, e, l, p, x, e-acute} handed to process_input (dispatch count, handler's view of name / item count / first item, help routing, output flushed)" % n, timeout=2400, mem=8, **kw) for n in lens]
 
 
 
@@ -193,7 +193,7 @@ def _c10():
     for H_ in (6, 7):
         hs.append(H("c10_history::h%d::push_step" % H_, tier="thorough", cfg=["vp_thorough"], optional=True, bounds="H=%d" % H_, timeout=3400, mem=12))
         hs.append(H("c10_history::h%d::navigate_step" % H_, tier="thorough", cfg=["vp_thorough"], optional=True, bounds="H=%d" % H_, timeout=3400, mem=8))
-    hs.append(H("c10_history::c10_from_new", bounds="H=4, 3 pushes of <=2 ASCII bytes then 3 navigations from new()", timeout=1500, mem=6))
+    hs.append(H("c10_history::c10_from_new", tier="thorough", bounds="H=4, 3 pushes of <=2 ASCII bytes then 3 navigations from new()", timeout=1500, mem=6))
     hs.append(H("c10_history::c10_push_twin", kind="twin"))
     return hs
 
@@ -220,9 +220,9 @@ PROPS["C11"] = {
         H("c11_complete::c11_merge_tight", bounds="free space 0..=4, <=3 distinct candidates of <=3 bytes, at least one longer than the free space", timeout=900, mem=4),
         H("c11_complete::c11_editor_autocompletion", tier="quick", bounds="n<=6, any editor state, <=2 candidates of <=3 bytes", timeout=1500, mem=8),
         H("c11_complete::c11_editor_autocompletion", tier="thorough", cfg=["vp_thorough"], bounds="n<=8", timeout=3400, mem=12),
-        H("c11_derived::c11_derived_set_a", bounds="derived autocomplete for names {get, set, get-led, go}: every word <= 3 bytes, free space 0..=6", timeout=1500, mem=6),
-        H("c11_derived::c11_derived_set_b", bounds="derived autocomplete for names {led, zhuk (Cyrillic), ledger, zhar (Cyrillic)}: every word <= 3 bytes, free space 0..=6", timeout=1500, mem=6),
-        H("c11_derived::c11_derived_group", bounds="derived autocomplete of a command group (two visible members, a hidden member, a catch-all): every word <= 3 bytes, free space 0..=6", timeout=1800, mem=8),
+        H("c11_derived::c11_derived_set_a", bounds="derived autocomplete for names {get, set, get-led, go}: every word <= 4 bytes, free space 0..=6", timeout=1500, mem=6),
+        H("c11_derived::c11_derived_set_b", bounds="derived autocomplete for names {led, zhuk (Cyrillic), ledger, zhar (Cyrillic)}: every word <= 4 bytes, free space 0..=6", timeout=1500, mem=6),
+        H("c11_derived::c11_derived_group", bounds="derived autocomplete of a command group (two visible members, a hidden member, a catch-all): every word <= 4 bytes, free space 0..=6", timeout=1800, mem=8),
         H("c11_complete::c11_merge_twin", kind="twin"),
     ],
 }
@@ -255,7 +255,7 @@ PROPS["C13"] = {
         H("c13_output::c13_step_fmt_write", bounds="any writer state, core::fmt::Write::write_str, text <= 3 bytes", timeout=900, mem=6),
         H("c13_output::c13_step_uwrite", bounds="any writer state, ufmt::uWrite::write_str, text <= 3 bytes", timeout=900, mem=6),
         H("c13_output::c13_writer_base", bounds="Writer::new()"),
-        H("c13_output::c13_writer_two_calls", bounds="2 calls of write_str/writeln_str x text <= 1 byte over {x, CR, LF} from new()", timeout=900, mem=6),
+        H("c13_output::c13_writer_two_calls", bounds="2 calls of write_str/writeln_str x text of exactly 1 byte over {x, CR, LF} from new()", timeout=900, mem=6),
         H("c13_output::c13_writer_twin", kind="twin"),
     ],
 }
@@ -330,10 +330,11 @@ PROPS["C14"] = {
     "claim": "with a sink that fails at a SYMBOLIC call position (write and flush calls counted together; once or permanently), every Cli-level step from ANY CliInv state (N=3,H=3): the call returns Err iff the sink failed during it; editor and decoder are restored; the line is as before, as the key would have left it, or cleared; CliInv holds afterwards (so later input is decoded normally and a later Enter dispatches only typed text, by C01/C05 induction)",
     "assumptions": CLI_ASSUME + ["handler output is one of: nothing, write_str(\"o\"), writeln_str(\"o\")"],
     "harnesses": cli_keys("cli_fail", FAIL_KEYS, tags=["C14"], timeout=1200, mem=5) + [
-        H("cli_fail::fail_enter", tags=["C14"], cfg=["vp_h0"], bounds="Enter from ANY editor state (N=3, history buffer of size 0), handler writes nothing / \"o\" / \"o\"+newline, fault at any call position", timeout=2400, mem=12),
+    ] + [H("cli_fail::fail_enter_v%d" % v, tags=["C14"], cfg=["vp_h0"], bounds="Enter from ANY editor state with a line of exactly %d bytes (N=3, history buffer of size 0), handler writes nothing / \"o\" / \"o\"+newline, fault at any call position" % v, timeout=2400, mem=10) for v in range(0, 4)] + [
         H("cli_fail::fail_cli_write", tags=["C14"], bounds="Cli::write / Cli::set_prompt from ANY CliInv state, fault at any call position", timeout=1200, mem=5),
         H("cli_fail::fail_process_error", tags=["C14"], bounds="the `error:` line for three kinds of parse error (every scalar as short option), fault at any call position", timeout=1200, mem=5),
-        H("cli_fail::fail_group_help", tags=["C14", "C12"], bounds="help for a command of the first / second member of a derived command group and `-h` on a command, fault at any call position (once or permanently)", timeout=1800, mem=8),
+    ] + [H("cli_fail::fail_group_help_" + k, tags=["C14", "C12"], bounds="help request %s on a derived two-member command group, sink failing at that call (once or permanently: symbolic); request and position are constants" % k, timeout=1200, mem=5)
+         for k in ("first_at0", "first_at2", "first_at6", "second_at0", "second_at3", "dash_h_at1")] + [
         H("cli_fail::fail_twin", kind="twin"),
     ],
 }
